@@ -219,6 +219,21 @@ def expectedSortCalls : List (String × String × String × String × String) :=
   ("sqlglot/optimizer/simplify.py", "Simplifier.uniq_sort", "sorted(arr)", "-", "-")
 ]
 
+/-- the audited list of UPPER_CASE tables that are mutated after their creation.  Audit:
+    * `_Dialect.__new__ : gen_cls.TRANSFORMS.pop` prunes the generator's JSON-path transforms when the DIALECT class is created —
+      later than the generator class itself, so a class that copied `TRANSFORMS` in between keeps the unpruned entries
+      (AthenaTrinoGenerator copying TrinoGenerator.TRANSFORMS: known finding / fix C15-athena-trino-transforms-order);
+    * `Parser._parse_connect_with_prior` puts "PRIOR" into the class-level `NO_PAREN_FUNCTION_PARSERS` for the duration of one
+      sub-parse and pops it again — not on the exception path before the repair (known finding / fix C15-connect-prior-table-restore);
+    * `_DISPATCH_CACHE` and `cls._COMMENTS` are the fills covered by `dispatch_cache_idempotent` / class construction. -/
+def expectedMutatedClassTables : List (String × String × String × String) := [
+  ("sqlglot/dialects/dialect.py", "_Dialect.__new__", "gen_cls.TRANSFORMS", "pop"),
+  ("sqlglot/generator.py", "Generator.__init__", "_DISPATCH_CACHE", "setitem"),
+  ("sqlglot/parser.py", "Parser._parse_connect_with_prior", "self.NO_PAREN_FUNCTION_PARSERS", "pop"),
+  ("sqlglot/parser.py", "Parser._parse_connect_with_prior", "self.NO_PAREN_FUNCTION_PARSERS", "setitem"),
+  ("sqlglot/tokens.py", "_TokenizerBase.__init_subclass__", "cls._COMMENTS", "setitem")
+]
+
 /-- explicit snapshot (NOT regenerated) of the per-call part of Generator.__init__ / Generator.generate before the repair
     "Generator.generate restarts the generated-alias counter": kept only as a witness of why the reset is needed -/
 def preFixGeneratorInit : Assigns := [("unsupported_messages", "[]"), ("_next_name", "name_sequence('_t')")]
